@@ -12,6 +12,12 @@
     * "inherited-additional-properties": with `additional_properties_default = False`, a class that
       inherits `_additional_properties = True` without re-declaring it gets `**kw` in the stub while its
       `__signature__` (built from the class's *own* dict) has no `**kwargs` (`inheritedAddlOn`).
+    * "inherited-additional-properties-off:signature-kwargs": with the default on, a class that inherits
+      `_additional_properties = False` without re-declaring it has `**kwargs` in `inspect.signature(cls)` (own
+      dict only) although its constructor rejects unknown keywords (`__setattr__` guard, inherited `getattr`);
+      the stub (correctly, w.r.t. what the constructor accepts) omits `**kw`, so stub and `__signature__`
+      disagree on the `**` clause (`inheritedAddlOff`; `C16_signature_statement`, `stub_sigkw_iff`,
+      `sig_kwargs_not_admitted_iff`).
   Full statement: `C16_statement`; proved: names and default-iff-not-required agree for every hierarchy
   unconditionally (`stub_names_agree`, `stub_required_agree`), `**kw` is characterised exactly (`stub_kw_iff`),
   the statement holds outside exactly that region (`stub_params_agree_partial`; unconditionally for the shipped
@@ -59,6 +65,16 @@ def C16_statement : Prop := ∀ (dflt : Bool) (c : ClassInfo), InitAgrees dflt c
 /-- default off, nothing declared by the class itself, `True` found further up the MRO -/
 def inheritedAddlOn (dflt : Bool) (c : ClassInfo) : Bool :=
   !dflt && c.decl.addl.isNone && (addlLookup (mro c) == some true)
+
+/-- default on, nothing declared by the class itself, `False` found further up the MRO -/
+def inheritedAddlOff (dflt : Bool) (c : ClassInfo) : Bool :=
+  dflt && c.decl.addl.isNone && (addlLookup (mro c) == some false)
+
+/-- the `**` clause of the stub `__init__` equals the `**kwargs` of `inspect.signature(cls)` -/
+def SigKwAgree (dflt : Bool) (c : ClassInfo) : Prop := (stubInit dflt dflt c).kw = (runtimeSig dflt c).kw
+
+/-- C16, the `**` clause read off `inspect.signature(cls)` instead of the constructor's behaviour -/
+def C16_signature_statement : Prop := ∀ (dflt : Bool) (c : ClassInfo), SigKwAgree dflt c
 
 /-! ### names -/
 
@@ -149,6 +165,66 @@ theorem stub_kw_disagree (dflt : Bool) (c : ClassInfo) (hx : inheritedAddlOn dfl
   | mk d bases =>
     simp only [inheritedAddlOn, ClassInfo.decl, Bool.and_eq_true, Bool.not_eq_true', Option.isNone_iff_eq_none] at hx
     simp [runtimeAdmitsExtra, runtimeSig, sigOf, makeSignature, hx.1.1, hx.1.2]
+
+/-! ### `**kw` vs the `**kwargs` of `__signature__` -/
+
+/-- exact characterisation: stub `**kw` and signature `**kwargs` differ exactly when the flag is only inherited
+    and differs from the default -/
+theorem stub_sigkw_iff (dflt : Bool) (c : ClassInfo) :
+    ((stubInit dflt dflt c).kw == (runtimeSig dflt c).kw) = !(inheritedAddlOn dflt c || inheritedAddlOff dflt c) := by
+  cases c with
+  | mk d bases =>
+    simp only [stubInit, stubKw, inheritedAddlOn, inheritedAddlOff, runtimeSig, sigOf,
+      makeSignature, mro, addlLookup, ClassInfo.decl]
+    cases hd : d.addl with
+    | some b => cases b <;> cases dflt <;> simp
+    | none =>
+      cases dflt <;> cases hl : addlLookup (mroL bases) with
+      | none => simp
+      | some b => cases b <;> simp
+
+/-- the signature advertises `**kwargs` that the constructor rejects exactly in the `inheritedAddlOff` region -/
+theorem sig_kwargs_not_admitted_iff (dflt : Bool) (c : ClassInfo) :
+    ((runtimeSig dflt c).kw && !runtimeAdmitsExtra dflt c) = inheritedAddlOff dflt c := by
+  cases c with
+  | mk d bases =>
+    simp only [runtimeAdmitsExtra, setattrAllows, inheritedAddlOff, runtimeSig, sigOf,
+      makeSignature, mro, addlLookup, ClassInfo.decl]
+    cases hd : d.addl with
+    | some b => cases b <;> cases dflt <;> simp
+    | none =>
+      cases dflt <;> cases hl : addlLookup (mroL bases) with
+      | none => simp
+      | some b => cases b <;> simp
+
+theorem stub_sigkw_agree_partial (dflt : Bool) (c : ClassInfo)
+    (h1 : inheritedAddlOn dflt c = false) (h2 : inheritedAddlOff dflt c = false) : SigKwAgree dflt c := by
+  have := stub_sigkw_iff dflt c
+  rw [h1, h2] at this
+  simpa [SigKwAgree] using this
+
+theorem stub_sigkw_disagree (dflt : Bool) (c : ClassInfo)
+    (h : (inheritedAddlOn dflt c || inheritedAddlOff dflt c) = true) : ¬ SigKwAgree dflt c := by
+  intro hagree
+  have := stub_sigkw_iff dflt c
+  rw [h] at this
+  unfold SigKwAgree at hagree
+  simp [hagree] at this
+
+/-- in the `inheritedAddlOff` region it is the stub that matches what the constructor accepts -/
+theorem stub_kw_matches_constructor_in_off_region (dflt : Bool) (c : ClassInfo)
+    (h : inheritedAddlOff dflt c = true) :
+    (stubInit dflt dflt c).kw = runtimeAdmitsExtra dflt c ∧ (runtimeSig dflt c).kw = true ∧
+      runtimeAdmitsExtra dflt c = false := by
+  have hon : inheritedAddlOn dflt c = false := by
+    cases dflt <;> simp_all [inheritedAddlOn, inheritedAddlOff]
+  have h1 := stub_kw_iff dflt c
+  have h2 := sig_kwargs_not_admitted_iff dflt c
+  rw [hon, Bool.or_false] at h1
+  rw [h] at h2
+  refine ⟨h1, ?_, ?_⟩
+  · cases hk : (runtimeSig dflt c).kw <;> simp_all
+  · cases ha : runtimeAdmitsExtra dflt c <;> simp_all
 
 /-! ### helper methods -/
 
@@ -246,6 +322,19 @@ theorem inherited_addl_counterexample :
     ¬ KwAgree false ceInheritedAddl (stubInit false false ceInheritedAddl).kw := by
   refine ⟨by decide, by decide, stub_kw_disagree false _ (by decide)⟩
 
+/-- `class P(Structure): a: String; _additional_properties = False` / `class Q(P): b: String`, shipped default -/
+def ceInheritedAddlOff : ClassInfo :=
+  .mk { name := "Q", fields := [{ name := "b" }] }
+    [.mk { name := "P", fields := [{ name := "a" }], addl := some false } []]
+
+theorem inherited_addl_off_counterexample :
+    (stubInit true true ceInheritedAddlOff).kw = false ∧ (runtimeSig true ceInheritedAddlOff).kw = true ∧
+    runtimeAdmitsExtra true ceInheritedAddlOff = false ∧ ¬ SigKwAgree true ceInheritedAddlOff := by
+  refine ⟨by decide, by decide, by decide, stub_sigkw_disagree true _ (by decide)⟩
+
+theorem C16_signature_statement_false : ¬ C16_signature_statement := fun h =>
+  inherited_addl_off_counterexample.2.2.2 (h true ceInheritedAddlOff)
+
 /-- the full-strength statement is false of the model (as it is of the pinned code) -/
 theorem C16_statement_false : ¬ C16_statement := fun h =>
   inherited_addl_counterexample.2.2 (h false ceInheritedAddl).1.2.2
@@ -267,7 +356,7 @@ theorem stub_params_agree_example :
     (stubInit true true exHierarchy).kw = false ∧ (runtimeSig true exHierarchy).kw = true ∧
     runtimeAdmitsExtra true exHierarchy = false ∧
     (runtimeSig true exHierarchy).params = [⟨"a", false⟩, ⟨"m", false⟩, ⟨"o", true⟩, ⟨"c", true⟩, ⟨"z", true⟩] ∧
-    inheritedAddlOn true exHierarchy = false ∧
+    inheritedAddlOn true exHierarchy = false ∧ inheritedAddlOff true exHierarchy = true ∧
     renderImports [("B", "pkg.b"), ("A", "pkg.a"), ("B", "pkg.b")] = ["from pkg.a import A", "from pkg.b import B"] := by
   decide
 
